@@ -485,6 +485,16 @@ func (c *Ctx) ruleLastResponse() {
 			}
 			return true
 		})
+		// the same question put to the abstract evaluation of the setter (helpers inlined): it decides when the chain
+		// is not written out in this one function (a block shared through a helper with several results)
+		if bad != "" || nUpd == 0 {
+			if e8bad, und := c.lastResponseE8(f); und == "" && e8bad == "" {
+				r.Ok("C02-LAST-RESPONSE", name, "by abstract evaluation (helpers inlined): every successful path stores into Responses[len-1] of the interaction looked up under the id made from d, with the list known to be non-empty", where)
+				continue
+			} else if und == "" && e8bad != "" {
+				bad = e8bad
+			}
+		}
 		switch {
 		case bad != "":
 			r.Bad("C02-LAST-RESPONSE", name, bad, where)
